@@ -1,7 +1,7 @@
 (* Corr_codec.v — engine `codec`: Codec::{encode, decode} (message.rs) against Codec.v, and the oracles
    of C08 (no panic / hang), C09 (limit), C10 (round trip, exact consumption), C11 (schema conformance
    against the reference decoder RefProto.ref_decode) evaluated on the implementation's outputs. *)
-From BS Require Import Bytes Varint Proto Qp ProtoCodec RefProto Frame Framed Codec.
+From BS Require Export Bytes Varint Proto Qp ProtoCodec RefProto Frame Framed Codec.
 Open Scope N_scope.
 
 Inductive dres := DrItem (m : message) (rest_len : N) | DrNeedMore | DrErr | DrPanic | DrHang.
